@@ -269,9 +269,12 @@ func checkC03(c *Ctx, r *Report) {
 	fqdnTrailingRun(c, r, "C03.R4.fqdn-trailing-run")
 	dddDigits(c, r, "C03.R2.ddd-digits")
 	withNames := typesWithNames(c)
-	borrowClause(c, r, c01R1, "C01.R1.pack-seq", "C03.R3.name-pack-errors", 28, "the pack method of every type with a domain name returns the name packer's error", func(k string) bool { return withNames[k] }, func(d string) bool { return strings.Contains(d, "error result") || strings.Contains(d, "not called") || strings.Contains(d, "not found") }, "a name that is not fully qualified, has an empty or over-long label or is over 255 octets is emitted in this record type instead of being refused")
+	borrowClause(c, r, c01R1, "C01.R1.pack-seq", "C03.R3.name-pack-errors", 28, "the pack method of every type with a domain name returns the name packer's error", func(k string) bool { return withNames[k] }, func(d string) bool {
+		return strings.Contains(d, "error result") || strings.Contains(d, "not called") || strings.Contains(d, "not found")
+	}, "a name that is not fully qualified, has an empty or over-long label or is over 255 octets is emitted in this record type instead of being refused")
 	r.rule("C03.R4.label-scan", 2, "the backward scan over the backslashes before a dot can reach index 0")
 	backslashScanReachesZero(c, r, "C03.R4.label-scan", []string{"NextLabel", "PrevLabel"}, "the label splitting of the text form disagrees with the wire labels for names that start with a backslash: label counts, RRSIG.Labels and the compression search of Len() are off by one label")
+	absoluteValidated(c, r, "C03.R1.absolute-validated", "the zone parser emits names over the 255-octet limit that PackDomainName and IsDomainName refuse")
 }
 
 func c03R2(c *Ctx, r *Report) {
